@@ -484,8 +484,13 @@ func genLeftovers(c *core.Choices, cfg *Config) {
 				data := `[{"NetworkType":"galaxy-flannel","Args":{},"Conf":{"type":"galaxy-flannel"},"IfName":"eth0"}]`
 				if j == 2 {
 					data = fmt.Sprintf(`[{"hostPort":%d,"containerPort":80,"protocol":"TCP","podName":"%s","podIP":"172.16.8.%d"}]`, 31500+i, lo.PodName, 10+i)
-					if c.Prob(1, 4) {
-						data = ""
+					switch c.Choose(8) {
+					case 0, 1:
+						data = "" // created, never written (crash between open and write)
+					case 2:
+						data = data[:len(data)/2] // truncated by a crash or a full disk during SavePort
+					case 3:
+						data = pick(c, []string{"{", "x", "[{\"hostPort\":", "null"})
 					}
 				}
 				cfg.Files = append(cfg.Files, FileDef{Path: d + "/" + lo.ID, Data: data})
@@ -517,7 +522,11 @@ func genLeftovers(c *core.Choices, cfg *Config) {
 		}
 		lo := Leftover{ID: hexID(cfg.ScriptSeed, 800, p.Idx), State: pick(c, []string{"exited", "dead", "absent", "running"}), PodNS: p.NS, PodName: p.Name}
 		cfg.Leftovers = append(cfg.Leftovers, lo)
-		cfg.Files = append(cfg.Files, FileDef{Path: gcDirs[2] + "/" + lo.ID, Data: "[" + strings.Join(ps, ",") + "]"})
+		pdata := "[" + strings.Join(ps, ",") + "]"
+		if c.Prob(1, 3) {
+			pdata = pdata[:len(pdata)/2]
+		}
+		cfg.Files = append(cfg.Files, FileDef{Path: gcDirs[2] + "/" + lo.ID, Data: pdata})
 		if c.Prob(1, 2) {
 			cfg.Files = append(cfg.Files, FileDef{Path: gcDirs[1] + "/" + lo.ID, Data: `[]`})
 		}
